@@ -369,6 +369,7 @@ type Report struct {
 	MaxDecision int
 	Scripts     []string // sample of solver scripts for cross-checking
 	Assertions  int
+	Fallbacks   int
 }
 
 type PathSample struct {
@@ -385,6 +386,7 @@ type ExploreOpts struct {
 	TimeLimit time.Duration
 	Solver    string
 	TimeoutMS int
+	FallbackMS int
 	StopFirst bool // stop at first violation per key
 	KeepScripts int
 }
@@ -465,7 +467,10 @@ func Explore(ld *Loaded, h Harness, cfg *Config, opts ExploreOpts) *Report {
 		opts.Workers = 8
 	}
 	if opts.TimeoutMS <= 0 {
-		opts.TimeoutMS = 10000
+		opts.TimeoutMS = 5000
+	}
+	if opts.FallbackMS == 0 {
+		opts.FallbackMS = 120000
 	}
 	var mu sync.Mutex
 	cond := sync.NewCond(&mu)
@@ -485,9 +490,11 @@ func Explore(ld *Loaded, h Harness, cfg *Config, opts ExploreOpts) *Report {
 				mu.Unlock()
 				return
 			}
+			solver.FallbackMS = opts.FallbackMS
 			defer func() {
 				mu.Lock()
 				s := solver.Stats
+				rep.Fallbacks += solver.Fallbacks
 				rep.Solver.Queries += s.Queries
 				rep.Solver.Sat += s.Sat
 				rep.Solver.Unsat += s.Unsat
